@@ -65,6 +65,62 @@ def sources(tier, seed, ctx):
     return srcs
 
 
+# the symbols Circuit.into_graphviz_digraph draws for gate types (trusted 20-line translation of what
+# a reader of the picture sees; a symbol not listed here is not judged)
+SYMBOL_CLASS = {'': 'INPUT', '1': 'ALWAYS_TRUE', '0': 'ALWAYS_FALSE', '\u2227': 'AND', '\u2265': 'GEQ', '>': 'GT', 'IFF': 'IFF',
+                '\u2264': 'LEQ', 'LIFF': 'LIFF', '\u00ac': 'NOT', '<': 'LT', '\u00ac\u2227': 'NAND', '\u00ac\u2228': 'NOR',
+                '\u00ac\u2295': 'NXOR', '\u2228': 'OR', 'RIFF': 'RIFF', '\u2295': 'XOR'}
+
+
+def _unq(tok):
+    tok = tok.strip()
+    if len(tok) >= 2 and tok[0] == '"' and tok[-1] == '"':
+        return tok[1:-1].replace('\\"', '"')
+    return tok
+
+
+def parse_dot(dot):
+    """Nodes (id -> symbol after the colon of the label), edges and cluster membership (a node
+    statement inside nested `subgraph cluster_X { }` belongs to all enclosing clusters) of the dot text."""
+    import re
+
+    nodes, edges, clusters, stack = {}, [], {}, []
+    for raw in dot.split('\n')[1:]:
+        line = raw.strip()
+        if not line:
+            continue
+        m = re.match(r'subgraph\s+("?)cluster_(.*?)\1\s*\{$', line)
+        if m:
+            stack.append(m.group(2))
+            clusters.setdefault(m.group(2), [])
+            continue
+        if line == '}':
+            if stack:
+                stack.pop()
+            continue
+        body = re.sub(r'\s*\[[^\]]*\]\s*$', '', line)
+        attrs = re.search(r'\[(.*)\]\s*$', line)
+        if '->' in body:
+            a, b = body.split('->', 1)
+            edges.append([_unq(a), _unq(b)])
+            continue
+        if '=' in body and not attrs:
+            continue            # graph attribute such as color=blue / label=...
+        nid = _unq(body)
+        if attrs:
+            lm = re.search(r'label="((?:[^"\\]|\\.)*)"', attrs.group(1)) or re.search(r'label=([^\s\]]+)', attrs.group(1))
+            if lm and nid not in nodes:
+                lab = lm.group(1)
+                nodes[nid] = SYMBOL_CLASS.get(lab.rsplit(': ', 1)[1] if ': ' in lab else '', 'unknown-symbol')
+            nodes.setdefault(nid, '')
+        else:
+            nodes.setdefault(nid, '')
+        for cl in stack:
+            if nid not in clusters[cl]:
+                clusters[cl].append(nid)
+    return {'nodes': nodes, 'edges': edges, 'clusters': clusters}
+
+
 def record(src):
     if src['k'] == 'graphviz':
         from .. import hist
@@ -76,12 +132,22 @@ def record(src):
             c.into_graphviz_digraph(as_bench=True)
         except Exception as e:
             exc = type(e).__name__
-        return {'kind': 'same', 'what': 'into_graphviz_digraph(as_bench=True)-modified-its-receiver', 'a': before, 'b': project(c), 'exc': exc, 'src': src}
+        case = {'kind': 'draw', 'what': 'into_graphviz_digraph(as_bench=True)-modified-its-receiver', 'a': before, 'b': project(c), 'exc': exc, 'src': src,
+                'nodes': {}, 'edges': [], 'clusters': {}, 'drawn': False}
+        if not exc:
+            # a second drawing with gate names in the node labels; its dot text is what a user sees
+            try:
+                dot = c.into_graphviz_digraph(as_bench=True, draw_labels=True).source
+                case.update(parse_dot(dot))
+                case['drawn'] = True
+            except Exception as e:
+                case['exc'] = type(e).__name__
+        return case
     return H.record_hist(src, PROP)
 
 
 def nontrivial(case):
-    if case['kind'] == 'same':
+    if case['kind'] == 'draw':
         return True
     bench = set(gen.BENCH_TYPES) | {'INPUT'}
     first = case['init']
@@ -90,8 +156,8 @@ def nontrivial(case):
 
 
 def features(case):
-    if case['kind'] == 'same':
-        return {'graphviz-as-bench'}
+    if case['kind'] == 'draw':
+        return {'graphviz-as-bench'} | ({'graphviz-with-block-clusters'} if case['clusters'] else set())
     seen = H.step_features(case, {'into_bench'})
     if case['init']['b']:
         seen.add('with-blocks')
